@@ -22,7 +22,7 @@ ASSUMPTIONS = ["str() / repr() of parts, conditions and types is supplied by the
                "anchor_root is caller-supplied id text inserted as it is; anchors are drawn from [A-Za-z0-9_-]+"]
 
 META = ["<b>bold</b>", "a & b", 'say "hi"', "it's", "`code`", "x `a<b` y", "plain", "tick ` alone", "`a`\n`b`", "<script>alert(1)</script>",
-        "a`b`c`d", "``", "é → ü", "1 < 2 > 0",
+        "a`b`c`d", "``", "é → ü", "1 < 2 > 0", "write &lt;tag&gt; as &amp;lt;tag&amp;gt; &nbsp; &#60; &mdash; R&D; &copy",
         # long texts whose code span straddles any plausible cut-off
         "set it like this: `{'alpha': 1, 'beta': [1, 2, 3], 'gamma': {'x': 'y & z', 'w': '<b>'}, 'delta': None, 'epsilon': 2.5}` and go on",
         "x " * 45 + "`code with blanks in it` " + "y " * 10]
@@ -342,7 +342,7 @@ def run(tier, seed, model_ok, spec_ok, replay=None):
             if not b.ok or b.stack:
                 viol.append(dict(d, what="HTML is not well-formed (tags not closed in order)", html=html_s[:300]))
             for m in META + [str(k) for k in KEYS]:
-                if any(ch in m for ch in "<>\"") and m in html_s:
+                if (any(ch in m for ch in "<>\"") or ("&" in m and ";" in m)) and m in html_s:
                     viol.append(dict(d, what=f"schema text {m!r} appears unescaped in the HTML"))
             try:
                 anc = "None" if anchor is None else f"(Some {E.enc_str(anchor)})"
